@@ -35,6 +35,9 @@ def Kind.isComposite : Kind → Bool
 inductive Outcome
   | ok | typeError | valueError | cyclicPathError | attributeError | parentMostError | keyError
   | duplicationError | recursionError | noMethod | unreachable
+  /-- whatever a constructor's own set-up raised after `Lexical.__init__` (a graph creator that
+  raises, an unknown input keyword, a failing autoload / autorun) -/
+  | setupError
   deriving DecidableEq, Repr, Inhabited
 
 structure Cfg where
@@ -58,15 +61,20 @@ structure Cfg where
   the owned node is gone and the labels are swapped: this composite itself or one of its
   ancestors (`CyclicPathError`), a node that can never have a parent (`TypeError`) -/
   replacePrecheck : Bool
+  /-- F8 a constructor that raises after `Lexical.__init__` lets go of everything it took: the
+  parent releases the half-built object, a `Workflow(label, *nodes)` its nodes (labels restored) -/
+  ctorRollback : Bool
   /-- depth available to the recursion of `lexical_path` (Python's recursion limit) -/
   fuel : Nat
   deriving Repr
 
-def Cfg.pinned (fuel : Nat := 64) : Cfg := ⟨false, false, false, false, false, false, false, fuel⟩
-def Cfg.repaired (fuel : Nat := 64) : Cfg := ⟨true, true, true, true, true, true, true, fuel⟩
+def Cfg.pinned (fuel : Nat := 64) : Cfg := ⟨false, false, false, false, false, false, false, false, fuel⟩
+def Cfg.repaired (fuel : Nat := 64) : Cfg := ⟨true, true, true, true, true, true, true, true, fuel⟩
+/-- /repo at 02da358 and later: F1–F7, without `fixes/C13-constructor-rollback.patch` (F8) -/
+def Cfg.head (fuel : Nat := 64) : Cfg := ⟨true, true, true, true, true, true, true, false, fuel⟩
 /-- the four `fix:` commits d3d68f8, c218405, 8702aee, 53801cf (F1–F6) without
 `fixes/C13-replace-child-precheck.patch` (F7) -/
-def Cfg.sixFixes (fuel : Nat := 64) : Cfg := ⟨true, true, true, true, true, true, false, fuel⟩
+def Cfg.sixFixes (fuel : Nat := 64) : Cfg := ⟨true, true, true, true, true, true, false, false, fuel⟩
 
 structure Tree where
   kind     : Nat → Kind
@@ -121,6 +129,19 @@ def ancWalk (t : Tree) (c : Nat) : Nat → Nat → Outcome
       match t.parent x with
       | none => .ok
       | some q => ancWalk t c n q
+
+/-- the hardened walk of `fixes/C13-cycle-walk-visited.patch`: it also stops (raising) when it
+meets a node for the second time, i.e. when the prospective parent already sits on a parent
+cycle that does not contain the child -/
+def ancWalkSeen (t : Tree) (c : Nat) : Nat → List Nat → Nat → Outcome
+  | 0, _, _ => .recursionError
+  | n + 1, seen, x =>
+    if x = c then .cyclicPathError
+    else if x ∈ seen then .cyclicPathError
+    else
+      match t.parent x with
+      | none => .ok
+      | some q => ancWalkSeen t c n (x :: seen) q
 
 /-- `_ensure_path_is_not_cyclic(parent, child)`; pinned: `parent.lexical_path.startswith(
 child.lexical_path + "/")` -/
@@ -350,6 +371,58 @@ def newNode (cfg : Cfg) (t : Tree) (c : Nat) (l : Str) (np : Option Nat) : Tree 
     | (t1, .ok) => (t1, .ok)
     | (_, e) => (t, e)
 
+/-! ## constructors that raise after the object has been adopted / has adopted -/
+
+/-- `Cls(label=l, parent=np, …)` whose set-up raises after `Lexical.__init__` went through
+(`Node.__init__`: `_setup_node()` = a macro's graph creator, `_after_node_setup()` = autoload,
+`set_input_values`, autorun).  Pinned: the half-built object stays a child of `np`.  F8: the
+`except` branch does `self.parent.remove_child(self)`; the object is then unreachable, its own
+label is nobody's business any more (last line). -/
+def ctorRelease (cfg : Cfg) (t t1 : Tree) (c : Nat) : Tree :=
+  let t2 := match t1.parent c with
+    | some p => (removeChild cfg t1 p c).1
+    | none => t1
+  { t2 with label := updF t2.label c (t.label c) }
+
+def newNodeFail (cfg : Cfg) (t : Tree) (c : Nat) (l : Str) (np : Option Nat) : Tree × Outcome :=
+  match newNode cfg t c l np with
+  | (t1, .ok) => (if cfg.ctorRollback then ctorRelease cfg t t1 c else t1, .setupError)
+  | (_, e) => (t, e)
+
+/-- the loop `for node in args: self.add_child(node)` of `Workflow._after_node_setup` with the undo
+log of F8: (node, label before) of every node that was not ours already -/
+def adoptAll (cfg : Cfg) (c : Nat) : Tree → List (Nat × Str) → List Nat → Tree × List (Nat × Str) × Outcome
+  | t, log, [] => (t, log, .ok)
+  | t, log, k :: r =>
+    match addChild cfg t c k none none with
+    | (t1, .ok) => adoptAll cfg c t1 (if t.parent k = some c then log else (k, t.label k) :: log) r
+    | (t1, e) => (t1, log, e)
+
+/-- F8 undo, most recent first: `LexicalParent.remove_child(self, node)` (no disconnect, no
+starting nodes) and `node.label = old_label` -/
+def undoAdopt (c : Nat) : Tree → List (Nat × Str) → Tree
+  | t, [] => t
+  | t, (k, old) :: r =>
+    undoAdopt c { t with children := updF t.children c (popVal (t.children c) k),
+                         parent := updF t.parent k none,
+                         label := updF t.label k old } r
+
+/-- `Workflow(l, *kids)`; `fails`: something after the adoption loop raises (autoload, autorun) -/
+def newWorkflowWith (cfg : Cfg) (t : Tree) (c : Nat) (l : Str) (kids : List Nat) (fails : Bool) :
+    Tree × Outcome :=
+  match newNode cfg t c l none with
+  | (t0, .ok) =>
+    match adoptAll cfg c t0 [] kids with
+    | (t1, log, e) =>
+      if e = .ok ∧ fails = false then (t1, .ok)
+      else
+        let e' := if e = .ok then Outcome.setupError else e
+        if cfg.ctorRollback then
+          let t2 := undoAdopt c t1 log
+          ({ t2 with label := updF t2.label c (t.label c) }, e')
+        else (t1, e')
+  | (_, e) => (t, e)
+
 /-- F7: the ownership side of a replacement is validated before anything changes -/
 def replacePre (cfg : Cfg) (t : Tree) (p new : Nat) : Outcome :=
   if cfg.replacePrecheck then
@@ -396,6 +469,8 @@ inductive Op
   | removeLabel (p : Nat) (l : Str)
   | replace (p old new : Nat)
   | replaceLabel (p : Nat) (l : Str) (new : Nat)
+  | newFail (c : Nat) (label : Str) (np : Option Nat)
+  | newWith (c : Nat) (label : Str) (kids : List Nat) (fails : Bool)
   | setStarting (p : Nat) (l : List Nat)
   deriving Repr
 
@@ -408,6 +483,8 @@ def step (cfg : Cfg) (t : Tree) : Op → Tree × Outcome
   | .removeLabel p l => removeChildLabel cfg t p l
   | .replace p o n => replaceChild cfg t p o n
   | .replaceLabel p l n => replaceChildLabel cfg t p l n
+  | .newFail c l np => newNodeFail cfg t c l np
+  | .newWith c l kids f => newWorkflowWith cfg t c l kids f
   | .setStarting p l => ({ t with starting := updF t.starting p l }, .ok)
 
 def run (cfg : Cfg) (t : Tree) (ops : List Op) : Tree := ops.foldl (fun t o => (step cfg t o).1) t
